@@ -188,6 +188,8 @@ def _cfg_vfire(tier):
             # in a vacuum the wind cannot act: segmented winds (switches inside the horizon) must leave the parabola untouched
             out.append({'carrier': c, 'step_ft': step, 'relative_deg': rel, 'rlo': max(rmax * i / n, step * 1.01), 'rhi': rmax * (i + 1) / n,
                         'wind': ['none', 'two', 'tail_then_head'][i % 3]})
+        # recording much finer than the integration step (rows are still points of the same trajectory)
+        out.append({'carrier': c, 'step_ft': step, 'relative_deg': rel, 'rlo': rmax * 0.3, 'rhi': rmax * 0.5, 'wind': 'none', 'fine': 0.13})
     return out
 
 
@@ -197,14 +199,14 @@ def _cfg_vfire(tier):
          bounds='the real Calculator.fire with the real Vacuum atmosphere on carriers A (5 deg), C (30 deg) [thorough: + B downhill, finer A, default step] with SYMBOLIC range and record step: '
                 'every row (interpolated rows are terms in the request) vs the closed-form parabola under the configured gravity; horizon K <= 12 / 24 steps; altitude excursion > 30 ft',
          assumptions=['tolerance = the exact discretisation term of C01.vacuum bounded by |g|*(step/2)*t/2 plus the chord error of the linear row interpolation (g*dt^2/8) plus 1e-9'])
-def c01_vacuum_fire(ctx, carrier, step_ft, relative_deg, rlo, rhi, wind='none'):
+def c01_vacuum_fire(ctx, carrier, step_ft, relative_deg, rlo, rhi, wind='none', fine=None):
     import math
     from harness import carriers
     p = pybc()
     U = p.Unit
     calc, shot = carriers.make(carrier, step_ft, wind, relative_deg=relative_deg, vacuum=True)
     R = ctx.real('range_ft', rlo, rhi)
-    S = ctx.real('record_step_ft', step_ft, max(rhi, step_ft))
+    S = ctx.real('record_step_ft', step_ft, max(rhi, step_ft)) if fine is None else float(step_ft * fine)
     rows = calc.fire(shot, U.Foot(R), U.Foot(S)).trajectory
     g = calc._calc._config.cGravityConstant
     e = shot.barrel_elevation >> U.Radian
